@@ -150,6 +150,20 @@ def t_step_two_symbols(tf):
     return t
 
 
+def t_routes(h):
+    """RouterClass.all_formatted_routes - the list the simulators derive the considered timeframes from (partial-candle publication,
+    fast-mode step): every trading route AND every data route is listed, also a data route on a pair that is traded as well"""
+    r = h.interp.instantiate(h.repo.find('jesse.routes.RouterClass'), [], {})
+    mk = lambda ex, sym, tf: Obj(None, {'exchange': ex, 'symbol': sym, 'timeframe': tf, 'strategy_name': 'S'}, name='route')
+    r.f['routes'] = [mk('Sandbox', 'BTC-USDT', '15m'), mk('Sandbox', 'ETH-USDT', '1h')]
+    r.f['data_candles'] = [{'exchange': 'Sandbox', 'symbol': 'BTC-USDT', 'timeframe': '5m'}, {'exchange': 'Sandbox', 'symbol': 'SOL-USDT', 'timeframe': '4h'}]
+    out = h.outcome('jesse.routes.RouterClass.all_formatted_routes', r) if False else None
+    got = h.attr(r, 'all_formatted_routes')
+    want = [('Sandbox', 'BTC-USDT', '15m'), ('Sandbox', 'ETH-USDT', '1h'), ('Sandbox', 'BTC-USDT', '5m'), ('Sandbox', 'SOL-USDT', '4h')]
+    have = [(x['exchange'], x['symbol'], x['timeframe']) for x in got] if isinstance(got, list) else None
+    h.prove(have is not None and sorted(have) == sorted(want), 'routes.all-formatted-routes-lists-every-route-and-every-data-route', {'listed': have})
+
+
 def t_strategy_reads(h):
     """mechanical: the engine treats decorators as transparent (A-5), so the members of Strategy through which a strategy reads
     candles, prices and its position must not be wrapped by anything but @property / @staticmethod / @abstractmethod: a memoising
@@ -466,6 +480,9 @@ def tasks(tier):
         ts.append(Task('min-step.all-subsets', t_min_step('all'), overrides=dict(ov), extra=dict(x, task_timeout_s=3600)))
     ts.append(Task('step.2sym.5m', t_step_two_symbols('5m'), extra=dict(x), overrides=dict(ov), invariants={}))
     ts.append(Task('strategy-reads', t_strategy_reads, extra=dict(x)))
+    ts.append(Task('routes', t_routes, extra=dict(x), overrides=dict(ov)))
+    import props.C02 as P2
+    ts.append(Task('match.chunk.n1', P2.t_match_chunk(1, 3), extra=dict(x, spec_mod=P2.SPEC, bounded='chunk of 3 minutes, 1 resting order'), overrides=dict(ov), max_paths=200000))
     # 'the stored one-minute candles equal the input candles': what the fast simulator hands to the store in one batch is stored by
     # add_multiple_1m_candles - appended, replaced, or partly both (its contract, shared with C20)
     import props.C20 as P20
